@@ -83,10 +83,44 @@ def find_consumers(repo):
 
 
 def r_keykinds(ctx):
-    cons = find_consumers(ctx.repo)
-    ctx.count("decomposition consumers", len(cons))
+    """Each consumer of a decomposition is decided by unrolling it (both translators: rules/translprog.py; Expression.eval and the walk over the
+    LMIs after a solve: rules/leafprog.py) -- every kind of key handled with its own indices / values, any other kind raises.  The structural
+    clauses below apply to a consumer whose program is outside the interpreted fragment, and to consumers no program is written for."""
+    from . import translprog, leafprog
+    decided = set()
+    try:
+        translprog.r_translators(ctx)
+        decided |= {"expression_to_matrices", "expression_to_sparse_matrices"}
+    except AnalysisError as ex:
+        ctx.notes.append("R-KEYKINDS: translator programs: %s -- structural clauses applied" % ex)
+    try:
+        if getattr(ctx, "_evalprog_done", None) is None:
+            leafprog.r_expression_eval_program(ctx)
+            ctx._evalprog_done = True
+        decided.add("Expression.eval")
+    except AnalysisError as ex:
+        ctx.notes.append("R-KEYKINDS: Expression.eval program: %s -- structural clauses applied" % ex)
+    try:
+        if getattr(ctx, "_assignprog_done", None) is None:
+            leafprog.r_assignment_program(ctx)
+            ctx._assignprog_done = True
+        fn0 = leafprog.assignment_fn(ctx.repo)
+        if fn0 is not None:
+            decided.add(qualname(fn0))
+    except AnalysisError as ex:
+        ctx.notes.append("R-KEYKINDS: post-solve program: %s -- structural clauses applied" % ex)
+    try:
+        cons = find_consumers(ctx.repo)
+    except AnalysisError:
+        if len(decided) >= 4:
+            ctx.count("decomposition consumers", len(decided))
+            return
+        raise
+    ctx.count("decomposition consumers", max(len(cons), len(decided)))
     for c in cons:
         name = qualname(c.fn)
+        if name in decided:
+            continue
         ctx.unit(name)
         key = "%s::%s" % (c.fn._module.rel, name)
         missing = {"leaf", "pair", "const"} - set(c.kinds)
@@ -161,7 +195,9 @@ def r_leafreg(ctx):
         ctx.notes.append("R-LEAFREG: %s -- shape rules applied instead" % ex)
         _leafreg_ctor_shape(ctx)
     try:
-        leafprog.r_assignment_program(ctx)
+        if getattr(ctx, "_assignprog_done", None) is None:
+            leafprog.r_assignment_program(ctx)
+            ctx._assignprog_done = True
     except AnalysisError as ex:
         ctx.notes.append("R-LEAFREG: %s -- shape rules applied instead" % ex)
         _leafreg_assign_shape(ctx)
@@ -291,7 +327,9 @@ def r_evalshape(ctx):
     repo = ctx.repo
     from . import leafprog
     try:
-        leafprog.r_expression_eval_program(ctx)
+        if getattr(ctx, "_evalprog_done", None) is None:
+            leafprog.r_expression_eval_program(ctx)
+            ctx._evalprog_done = True
     except AnalysisError as ex:
         ctx.notes.append("R-EVALSHAPE: %s -- only the shape rules apply" % ex)
     # Point.eval
